@@ -849,6 +849,10 @@ impl<'a, Traits: ?Sized + Trait, M: MemBuilder> IntoIterator for &'a mut AnyVec<
 /// [`AnyVec`]: crate::AnyVec
 /// [`AnyVec::downcast_ref`]: crate::AnyVec::downcast_ref
 pub struct AnyVecRef<'a, T: 'static, M: MemBuilder + 'a>(pub(crate) AnyVecTyped<'a, T, M>);
+// AnyVecRef is a shared (and Clone) view: it may cross threads only if &[T] (and &Mem) may.
+unsafe impl<'a, T: 'static, M: MemBuilder + 'a> Send for AnyVecRef<'a, T, M>
+    where AnyVecTyped<'a, T, M>: Sync
+{}
 impl<'a, T: 'static, M: MemBuilder + 'a> Clone for AnyVecRef<'a, T, M>{
     #[inline]
     fn clone(&self) -> Self {
